@@ -158,6 +158,11 @@ def layouts(tier):
         L.append(('pair-fwd/' + first, [(('B', first, 'L')), ('B', 'BEQ', 'L'), ('F', 'f1'), ('L', 'L')]))
         L.append(('pair-bwd/' + first, [('L', 'L'), ('F', 'f1'), ('B', first, 'L'), ('B', 'BEQ', 'L')]))
         L.append(('pair-other-label/' + first, [('B', first, 'L'), ('B', 'BEQ', 'M'), ('F', 'f1'), ('L', 'L'), ('F', 'f2'), ('L', 'M')]))
+    for first in ('BCC', 'BMI'):
+        for b in BR:
+            L.append(('pair-then-branch/%s/%s' % (first, b), [('B', first, 'L'), ('B', 'BEQ', 'L'), ('F', 'f1'), ('L', 'L'), ('B', b, 'M'), ('F', 'f2'), ('F', 'f3'), ('L', 'M')]))
+            L.append(('branch-then-pair/%s/%s' % (b, first), [('B', b, 'M'), ('F', 'f1'), ('L', 'M'), ('B', first, 'L'), ('B', 'BEQ', 'L'), ('F', 'f2'), ('L', 'L'), ('F', 'f3')]))
+        L.append(('two-pairs/%s' % first, [('B', first, 'L'), ('B', 'BEQ', 'L'), ('F', 'f1'), ('L', 'L'), ('B', 'BCC' if first == 'BMI' else 'BMI', 'M'), ('B', 'BEQ', 'M'), ('F', 'f2'), ('L', 'M')]))
     pairs = list(itertools.product(BR, BR)) if tier == 'thorough' else [(a, b) for a, b in itertools.product(BR, BR) if (BR.index(a) + 2 * BR.index(b)) % 3 == 0]
     for a, b in pairs:
         L.append(('two-nested/%s/%s' % (a, b), [('B', a, 'L'), ('F', 'f1'), ('B', b, 'M'), ('F', 'f2'), ('L', 'M'), ('L', 'L')]))
